@@ -26,7 +26,7 @@ type generator struct {
 
 var gens = []generator{
 	{file: "Nucleotide.lean", src: "nucleotide.go", run: genNucleotide},
-	{file: "Arith.lean", src: "utils.go, location.go, seqio/origin.go, seqio/date.go", run: genArith},
+	{file: "Arith.lean", src: "utils.go, location.go, modifier.go, seqio/origin.go, seqio/date.go", run: genArith},
 	{file: "Cli.lean", src: "cmd/gts/*.go", run: genCli},
 	{file: "Date.lean", src: "seqio/date.go", run: genDate},
 	{file: "MolTop.lean", src: "molecule.go, topology.go", run: genMolTop},
